@@ -458,7 +458,7 @@ func runTamper(c *Ctx) error {
 	for t := 0; t < nT; t++ {
 		seedMsgs := tamperTranscript(c, t)
 		// build the honest stream once to enumerate faults
-		probe := tamperRun(c, seedMsgs, nil, false)
+		probe := tamperRun(c, seedMsgs, nil, false, "recvc")
 		honest, frames := probe.honest, probe.frames
 		var faults [][]fault
 		// every bit of short transcripts (quick: every byte, 2 bits; thorough: all 8)
@@ -516,8 +516,13 @@ func runTamper(c *Ctx) error {
 		}
 		cases = append(cases, probe.cs)
 		for _, fs := range faults {
-			r := tamperRun(c, seedMsgs, fs, true)
+			r := tamperRun(c, seedMsgs, fs, true, "recvc")
 			cases = append(cases, r.cs)
+			// the same fault seen through the typed layer (Message.GetRemainingBytes); frame-level faults only
+			if fs[0].kind != "bitflip" || c.Rng.Intn(8) == 0 {
+				r2 := tamperRun(c, seedMsgs, fs, true, "mrest")
+				cases = append(cases, r2.cs)
+			}
 		}
 	}
 	norm := func(s string) string {
@@ -566,7 +571,7 @@ type tamperResult struct {
 	frames []refcodec.Frame
 }
 
-func tamperRun(c *Ctx, sp tamperSpec, fs []fault, count bool) tamperResult {
+func tamperRun(c *Ctx, sp tamperSpec, fs []fault, count bool, api string) tamperResult {
 	w := newWorld()
 	from, to := "A", "B"
 	if !sp.dirAB {
@@ -633,7 +638,13 @@ func tamperRun(c *Ctx, sp tamperSpec, fs []fault, count bool) tamperResult {
 	}
 	var delivered [][]byte
 	for i := 0; i < len(msgs)+3; i++ {
-		m, err := w.recvc(to)
+		var m []byte
+		var err error
+		if api == "mrest" {
+			m, err = w.mrest(to)
+		} else {
+			m, err = w.recvc(to)
+		}
 		if err != nil {
 			break
 		}
@@ -659,13 +670,14 @@ func tamperRun(c *Ctx, sp tamperSpec, fs []fault, count bool) tamperResult {
 		for _, f := range fs {
 			fk = append(fk, f.kind)
 		}
-		c.Violate(Violation{Property: "C02", Key: "C02:" + strings.Join(fk, "+") + ":" + strings.SplitN(bad, " ", 2)[0],
+		c.Violate(Violation{Property: "C02", Key: "C02:" + api + ":" + strings.Join(fk, "+") + ":" + strings.SplitN(bad, " ", 2)[0],
 			What: bad, Ops: append([]string{}, w.ops...), Expected: fmt.Sprintf("a prefix of %d sent messages, at most %d of them", len(msgs), firstBad),
 			Observed: fmt.Sprintf("%d delivered; faults=%v", len(delivered), fs)})
 	}
 	w.finish()
 	if count {
-		key := fmt.Sprintf("%v|%v", sp, fs)
+		key := fmt.Sprintf("%v|%v|%s", sp, fs, api)
+		c.Count("api:" + api)
 		c.Distinct(key, changed)
 		if len(fs) > 0 {
 			c.Count("fault:" + fs[0].kind)
